@@ -345,7 +345,16 @@ class Interp:
             self._block(s.body if self.truth(self.eval(s.test, env)) else s.orelse, env)
         elif isinstance(s, ast.For):
             broke = False
-            for item in self._iterate(self.eval(s.iter, env)):
+            iterator = iter(self._iterate(self.eval(s.iter, env)))
+            while True:
+                try:
+                    item = next(iterator)
+                except StopIteration:
+                    break
+                except RuntimeError as ex:  # a live view of a native dict / set / deque changed by the loop body: what CPython raises
+                    if "changed" in str(ex) or "mutated" in str(ex):
+                        raise Raised("RuntimeError") from None
+                    raise
                 self._tick()
                 self._assign(s.target, item, env)
                 try:
